@@ -32,7 +32,7 @@ CFGS = ["absent", "any", "never", "version"]
 POLICIES = ["generate", "allow", "deny"]
 RENAMES = [None, "other", "other-crate"]
 PARAMS = ["0", "1i", "1r", "2", "1x", "1c", "1s"]
-SITES = ["member", "def_same", "def_diff", "vec", "inline"]
+SITES = ["member", "def_same", "def_diff", "vec", "inline", "allof1", "allof2"]
 MALFORMED = ["no_path", "no_version", "no_crate", "bad_req", "empty_req", "path_no_sep", "path_other_crate", "path_hyphen", "ext_string", "ext_number",
              "ext_array", "params_string"]
 MARKER = "marker_zz9"
@@ -102,6 +102,11 @@ def build_doc(site, req, params, mal, params2=None):
         defs["User"] = {"type": "object", "properties": {"m": {"type": "array", "items": {"$ref": "#/definitions/Thing"}}}, "required": ["m"]}
     elif site == "inline":
         defs["User"] = {"type": "object", "properties": {"m": thing}, "required": ["m"]}
+    elif site in ("allof1", "allof2"):
+        # the definition is reached through an allOf whose other members add no constraint (annotation wrappers, a redundant type)
+        defs["Thing"] = thing
+        wrap = [{"$ref": "#/definitions/Thing"}] + ([{"type": "object"}] if site == "allof2" else [])
+        defs["User"] = {"type": "object", "properties": {"m": {"description": "wrapped", "allOf": wrap}}, "required": ["m"]}
     elif site in ("inline2", "def_inline", "vec_inline"):
         # the same external path used twice in one type space with DIFFERENT parameter lists
         thing2 = {"type": "object", "properties": {MARKER: {"type": "string"}}, "required": [MARKER], "x-rust-type": ext_value(req, params2, None)}
@@ -285,7 +290,7 @@ def execute(cases_, tier, seed):
     res.extra["semver_pairs_crosschecked"] = len(PAIRS)
     res.samples = [{"settings": c["settings"], "ext": c["doc"]["definitions"].get("Thing", c["doc"]["definitions"].get("Other", {})).get("x-rust-type"),
                     "site": c["site"]} for c in cases_[:: max(1, len(cases_) // 4)]][:4]
-    res.bound = ("tier=%s: %s of cfg(4) x policy(3) x %d semver pairs x rename(3) x params(7) x site(5); malformed(12) x cfg x policy x sites"
+    res.bound = ("tier=%s: %s of cfg(4) x policy(3) x %d semver pairs x rename(3) x params(7) x site(7); malformed(12) x cfg x policy x sites"
                  % (tier, "full product", len(PAIRS if tier != "quick" else QUICK_PAIRS)))
     res.assumptions = ["expected semver column hand-written from Cargo's documented semantics, cross-checked against the semver crate (disagreement = exit 2)"]
     if not res.violations and (len(outcomes) < 2 and len(cases_) > 10):   # a subject that breaks everything is reported through its violations, not as vacuity
